@@ -188,11 +188,32 @@ func RouterInfo(c *choose.Ctx) Signed {
 	return Signed{"RouterInfo", b.B, b.R, ri, kp, kp}
 }
 
+// leaseShape: field values of the first lease that are legal on the wire but degenerate: an all-zero
+// gateway hash, tunnel id 0 / 2^32-1, an all-ff hash (rules about them differ between twin sites).
+func leaseShape(c *choose.Ctx, h *[32]byte, tunnel *uint32) {
+	switch c.Pick("lease[0].shape", 5) {
+	case 1:
+		*h = [32]byte{}
+	case 2:
+		*tunnel = 0
+	case 3:
+		*tunnel = 1<<32 - 1
+	case 4:
+		for i := range h {
+			h[i] = 0xff
+		}
+	}
+}
+
 func leases(c *choose.Ctx) []refmodel.Lease {
 	n := []int{1, 0, 2, 16}[c.Pick("nleases", 4)]
 	var out []refmodel.Lease
 	for i := 0; i < n; i++ {
-		out = append(out, refmodel.Lease{Hash: hash("gw", uint64(i)), TunnelID: uint32(i + 1), EndMs: LeaseEndMs + uint64(i)})
+		l := refmodel.Lease{Hash: hash("gw", uint64(i)), TunnelID: uint32(i + 1), EndMs: LeaseEndMs + uint64(i)}
+		if i == 0 {
+			leaseShape(c, &l.Hash, &l.TunnelID)
+		}
+		out = append(out, l)
 	}
 	return out
 }
@@ -201,7 +222,11 @@ func leases2(c *choose.Ctx, menu []int) []refmodel.Lease2 {
 	n := menu[c.Pick("nleases", len(menu))]
 	var out []refmodel.Lease2
 	for i := 0; i < n; i++ {
-		out = append(out, refmodel.Lease2{Hash: hash("gw2", uint64(i)), TunnelID: uint32(i + 1), EndSec: LeaseEndSec + uint32(i)})
+		l := refmodel.Lease2{Hash: hash("gw2", uint64(i)), TunnelID: uint32(i + 1), EndSec: LeaseEndSec + uint32(i)}
+		if i == 0 {
+			leaseShape(c, &l.Hash, &l.TunnelID)
+		}
+		out = append(out, l)
 	}
 	return out
 }
